@@ -570,7 +570,10 @@ class Inliner(object):
                 root = s.exc
             elif isinstance(s, ast.If):
                 root = s.test
-            if root is not None and not (self._callee(root, cls_stack) and isinstance(s, (ast.Expr, ast.Assign, ast.Return))):
+            direct = self._callee(root, cls_stack) if root is not None else None
+            if direct and (isinstance(root, ast.Await) != direct[0].is_async):
+                direct = None          # `await h(..)` with a plain function h that returns the awaitable: h(..) is an inner call
+            if root is not None and not (direct and isinstance(s, (ast.Expr, ast.Assign, ast.Return))):
                 found = None
                 for x in _eval_order(root):
                     hit_ = self._callee(x, cls_stack) if isinstance(x, (ast.Call, ast.Await)) else None
@@ -700,9 +703,12 @@ class Inliner(object):
                     else:
                         tg = s.targets
 
-                        def mk(e, at, tg=tg):
+                        def mk(e, at, tg=tg, made=getattr(s, '_inl', False)):
                             v = e if e is not None else ast.Constant(value=None)
-                            return [ast.copy_location(ast.Assign(targets=[copy.deepcopy(t) for t in tg], value=v), at)]
+                            na = ast.copy_location(ast.Assign(targets=[copy.deepcopy(t) for t in tg], value=v), at)
+                            if made:
+                                na._inl = True
+                            return [na]
                         new = pre + _tail(hb, mk, s)
                     self.count += 1
                     out.extend(new or [ast.copy_location(ast.Pass(), s)])
